@@ -634,7 +634,105 @@ func checkC19(e *Engine, r *Report) {
 				}
 			}
 			r.Check("R5:returns-matched-type", "selection order", "chooseBalloonDef returns the annotated type, the configured type that matched, or the default", e.Pos(ch.Pos()), ch, okRet, "", true)
+			// … and a configured type is returned only where one of its expressions evaluated to true or its namespaces
+			// matched; where that is the case the search stops with that type
+			isMatchCall := func(v ssa.Value) bool {
+				for _, c := range append(append([]ssa.CallInstruction{}, evs...), nsc...) {
+					if v == c.Value() {
+						return true
+					}
+				}
+				return false
+			}
+			okPol, nEl := true, 0
+			for _, ret := range Returns(ch) {
+				isElem := false
+				Origins(ret.Results[0], func(x ssa.Value) bool {
+					if u, ok := x.(*ssa.UnOp); ok && u.Op == token.MUL {
+						if ia, ok := u.X.(*ssa.IndexAddr); ok {
+							if f, _ := loadedField(ia.X); f == fDefs {
+								isElem = true
+							}
+						}
+					}
+					return false
+				})
+				if !isElem {
+					continue
+				}
+				nEl++
+				dom := false
+				for _, cf := range dominatingConds(ret.Block()) {
+					if isMatchCall(cf.Cond) && cf.Val {
+						dom = true
+					}
+				}
+				if !dom {
+					okPol = false
+				}
+			}
+			r.Check("R5:configured-type-only-on-match", "selection order", "a configured balloon type is chosen only where one of its match expressions evaluated to true or its namespace patterns matched", e.Pos(ch.Pos()), ch, okPol && nEl > 0, "", true)
+			for _, mc := range append(append([]ssa.CallInstruction{}, evs...), nsc...) {
+				mc := mc
+				p := FindPath(PathQuery{Fn: ch, From: mc.(ssa.Instruction), Assume: func(cond ssa.Value) (bool, bool) {
+					if cond == mc.Value() {
+						return true, true
+					}
+					return false, false
+				}, Target: func(in ssa.Instruction) bool {
+					if ret, ok := in.(*ssa.Return); ok {
+						// a return of something else than a configured element
+						isElem := false
+						Origins(ret.Results[0], func(x ssa.Value) bool {
+							if u, ok := x.(*ssa.UnOp); ok && u.Op == token.MUL {
+								if ia, ok := u.X.(*ssa.IndexAddr); ok {
+									if f, _ := loadedField(ia.X); f == fDefs {
+										isElem = true
+									}
+								}
+							}
+							return false
+						})
+						return !isElem
+					}
+					// or another match attempt (the search went on)
+					if v, ok := in.(ssa.Value); ok && in != mc.(ssa.Instruction) && isMatchCall(v) {
+						return true
+					}
+					return false
+				}})
+				r.Check("R5:match-stops-search", "selection order", "the first configured type that matches is the one chosen (the search does not go on after a match)", e.InstrPos(mc), ch, p == nil, e.pathString(p), true)
+			}
 		}
+	}
+	// balloonDefByName: the type returned for a name is one whose Name equals it
+	if fn := r.Anchor(pkgBL, "balloons.balloonDefByName"); fn != nil && len(fn.Params) == 2 {
+		fName := e.Field(pkgCfgBL, "BalloonDef", "Name")
+		okN, nRet := true, 0
+		for _, ret := range Returns(fn) {
+			if k, isK := ret.Results[0].(*ssa.Const); isK && k.IsNil() {
+				continue
+			}
+			nRet++
+			dom := false
+			for _, cf := range dominatingConds(ret.Block()) {
+				x, y, op, ok := cmpOriented(cf.Cond, func(v ssa.Value) bool { f, _ := loadedField(v); return f != nil && f == fName })
+				if !ok {
+					continue
+				}
+				_, base := loadedField(x)
+				if !cf.Val {
+					op = negCmp(op)
+				}
+				if op == token.EQL && paramIndex(y) == 1 && sameObject(base, ret.Results[0]) {
+					dom = true
+				}
+			}
+			if !dom {
+				okN = false
+			}
+		}
+		r.Check("R5:type-by-name-compares-name", "selection order", "balloonDefByName returns a type only where that type's Name equals the requested name", e.Pos(fn.Pos()), fn, okN && nRet > 0, "", true)
 	}
 	if fb := r.Anchor(pkgBL, "balloons.fillBuiltinBalloonDefs"); fb != nil {
 		fDefs := e.Field(pkgCfgBL, "Config", "BalloonDefs")
